@@ -562,13 +562,14 @@ structure Sealing where
   sealed : Bytes
   pt : Bytes
 
+/-- newest sealing first; the lookups compare the most discriminating field first (speed only) -/
 def tableBox (t : List Sealing) : Box :=
   { enc := fun k n m =>
-      match t.find? (fun s => s.key == k && s.nonce == n && s.pt == m) with
+      match t.find? (fun s => s.nonce == n && s.pt == m && s.key == k) with
       | some s => s.sealed
       | none => [],
     dec := fun k n c =>
-      match t.find? (fun s => s.key == k && s.nonce == n && s.sealed == c) with
+      match t.find? (fun s => s.sealed == c && s.nonce == n && s.key == k) with
       | some s => some s.pt
       | none => none }
 
@@ -660,13 +661,13 @@ def stepLine (s : DrvSt) (line : String) : DrvSt × String :=
   | ["seal", ctx, n, p, sl] =>
     match fromHex? ctx, fromHex? n, fromHex? p, fromHex? sl with
     | some ctx, some n, some p, some sl =>
-      ({ s with table := s.table ++ [{ key := ctx, nonce := n, sealed := sl, pt := p }] }, "ok")
+      ({ s with table := { key := ctx, nonce := n, sealed := sl, pt := p } :: s.table }, "ok")
     | _, _, _, _ => (s, "bad-op")
   | ["send", w, p, sl] =>
     match fromHex? p, fromHex? sl, getConn s w with
     | some p, some sl, some c =>
       let E0 := drvEnv s.table
-      let t := s.table ++ [{ key := senderRecordKey E0 c.isSender, nonce := beFixed 24 c.sendNonce, sealed := sl, pt := p }]
+      let t := { key := senderRecordKey E0 c.isSender, nonce := beFixed 24 c.sendNonce, sealed := sl, pt := p } :: s.table
       let s1 := { s with table := t }
       onConn s1 w (fun c => sendRecord (drvEnv t) c p)
     | _, _, _ => (s, "bad-op")
